@@ -459,6 +459,10 @@ fn operand(expr: &Expr) -> String {
         | Expr::Neg(_)
         | Expr::Value(Value::Float(_))
         | Expr::Value(Value::Decimal(_)) => format!("({expr})"),
+        // `f.5` and `d.5` are float and decimal literals, not an index into `f` or `d`
+        Expr::Reference(name) | Expr::Symbol(name) if name == "f" || name == "d" => {
+            format!("({expr})")
+        }
         _ => expr.to_string(),
     }
 }
